@@ -97,6 +97,7 @@ type frame struct {
 	class  string
 	binary bool
 	data   []byte
+	ev     *mocrelay.Event // class "event": the authentic event of the frame
 }
 
 type frameGen struct {
@@ -119,7 +120,8 @@ func (g *frameGen) frameOf(class string, k int) frame {
 	js := func(v any) []byte { b, _ := json.Marshal(v); return b }
 	switch class {
 	case "event":
-		return frame{class: class, data: js(&mocrelay.ClientEventMsg{Event: signed(1)})}
+		e := signed(1)
+		return frame{class: class, data: js(&mocrelay.ClientEventMsg{Event: e}), ev: e}
 	case "auth":
 		return frame{class: class, data: js(&mocrelay.ClientAuthMsg{Event: signed(22242)})}
 	case "req":
@@ -470,8 +472,21 @@ func C12(run *core.Run) {
 	var linesMu sync.Mutex
 	runSeq := func(classes []string, emitMax int, rr *rand.Rand) {
 		var frames []frame
+		var authentic []*mocrelay.Event
 		for k, c := range classes {
-			frames = append(frames, g.frameOf(c, k+1))
+			f := g.frameOf(c, k+1)
+			if c == "altered" && len(authentic) > 0 && rr.Intn(2) == 0 {
+				// an authentic event that this very session has already submitted, with another body
+				// under the same id and signature
+				e := *authentic[rr.Intn(len(authentic))]
+				e.Content = g.marker(k + 1)
+				b, _ := json.Marshal(&mocrelay.ClientEventMsg{Event: &e})
+				f = frame{class: c, data: b}
+			}
+			if f.ev != nil {
+				authentic = append(authentic, f.ev)
+			}
+			frames = append(frames, f)
 		}
 		plan := map[int]int{}
 		emitPlan := func(n int) int {
@@ -525,7 +540,7 @@ func C12(run *core.Run) {
 	// (2) long seeded sequences
 	nLong, lenLong := 6, 120
 	if run.Thorough() {
-		nLong, lenLong = 40, 600
+		nLong, lenLong = 200, 600
 	}
 	classes := []string{"event", "req", "close", "count", "auth", "binary", "nonjson", "nonarray", "unknownlabel", "illtyped", "invalidfield", "forgedsig", "altered"}
 	for i := 0; i < nLong; i++ {
@@ -578,7 +593,7 @@ func C12(run *core.Run) {
 	for i, l := range lines {
 		traces = append(traces, tv.Trace{Name: fmt.Sprintf("session-%d", i), Lines: []any{l}})
 	}
-	out, err := tv.Validate(gateTraceSpec, nil, traces, 6)
+	out, err := tv.ValidateChunks(gateTraceSpec, nil, traces, 6, 400, 8)
 	if out != nil {
 		run.Add("traces_validated_against_impl", int64(out.Accepted+len(out.Rejects)))
 	}
